@@ -108,6 +108,9 @@ func (x *Exec) resolveSort(env *CEnv, s string) string {
 		return name
 	}
 	if x.typeParams[name] {
+		if tp, ok := x.typeParamObjs[name]; ok {
+			return x.sortOf(tp)
+		}
 		return x.d.Uninterp("U_" + name)
 	}
 	// a Go type of the package under verification
@@ -762,6 +765,40 @@ func init() {
 			}
 			return tIte(tEq(r, nullRef), x.zeroOfSort(v.Sort, nil), v)
 		},
+		// deref(p): the value a pointer to a non-struct points to
+		"deref": func(x *Exec, env *CEnv, e CCall, want string) Term {
+			p := x.ceval(env, e.Args[0], "Ref")
+			if p.Ty == nil {
+				x.cfail(env, "deref of %s: unknown pointer type", p.S)
+			}
+			pt, ok := types.Unalias(p.Ty).(*types.Pointer)
+			if !ok {
+				x.cfail(env, "deref of non-pointer %v", p.Ty)
+			}
+			return x.loadCell(env.st, p, pt.Elem())
+		},
+		"store": func(x *Exec, env *CEnv, e CCall, want string) Term {
+			m := x.ceval(env, e.Args[0], want)
+			si := x.d.sorts[m.Sort]
+			if si == nil || si.Kind != "array" {
+				x.cfail(env, "store into sort %s", m.Sort)
+			}
+			k := x.ceval(env, e.Args[1], si.Args[0])
+			v := x.ceval(env, e.Args[2], si.Elem)
+			return tStore(m, k, v)
+		},
+		// conv(x, T): conversion of x to the type parameter / sort T (uninterpreted between
+		// distinct sorts)
+		"conv": func(x *Exec, env *CEnv, e CCall, want string) Term {
+			v := x.ceval(env, e.Args[0], "")
+			id, ok := e.Args[1].(CIdent)
+			if !ok {
+				x.cfail(env, "conv(x, T) needs a sort name")
+			}
+			return x.convUF(v, x.resolveSort(env, id.Name))
+		},
+		"mfwd": func(x *Exec, env *CEnv, e CCall, want string) Term { return x.cMorph(env, e, true) },
+		"minv": func(x *Exec, env *CEnv, e CCall, want string) Term { return x.cMorph(env, e, false) },
 		"zero": func(x *Exec, env *CEnv, e CCall, want string) Term {
 			id, ok := e.Args[0].(CIdent)
 			if !ok {
@@ -815,6 +852,35 @@ func mentionsState(e CExpr) bool {
 		}
 	}
 	return false
+}
+
+// cMorph: mfwd(l, s, t) / minv(l, t, s) over a list of isomorphism instances.
+func (x *Exec) cMorph(env *CEnv, e CCall, fwd bool) Term {
+	l := x.ceval(env, e.Args[0], "")
+	li := x.listKind(env, l, "mfwd")
+	if li.Elem != "Ref" || l.Ty == nil {
+		x.cfail(env, "mfwd/minv: %s (sort %s, type %v) is not a list of isomorphisms", l.S, l.Sort, l.Ty)
+	}
+	sl, ok := types.Unalias(l.Ty).Underlying().(*types.Slice)
+	if !ok {
+		x.cfail(env, "mfwd/minv: type %v", l.Ty)
+	}
+	in := namedOf(sl.Elem())
+	if in == nil {
+		x.cfail(env, "mfwd/minv: element type %v", sl.Elem())
+	}
+	f, ok1 := x.methodUF(in, "fwd")
+	g, ok2 := x.methodUF(in, "inv")
+	if !ok1 || !ok2 {
+		x.cfail(env, "mfwd/minv: %v has no fwd/inv", in)
+	}
+	a := x.ceval(env, e.Args[1], "")
+	b := x.ceval(env, e.Args[2], "")
+	x.d.instantiate("MorphFold", map[string]string{"L": l.Sort, "S": f.args[0], "T": f.args[1], "FWD": f.fname, "INV": g.fname})
+	if fwd {
+		return tApp(f.ret, "mfwd_"+f.fname, l, a, b)
+	}
+	return tApp(g.ret, "minv_"+g.fname, l, a, b)
 }
 
 func (x *Exec) cPred(env *CEnv, e CCall, name string) Term {
